@@ -6,6 +6,8 @@ CONSTANTS
   NoDupRead = FALSE
   LoseMinKey = FALSE
   EarlyClean = TRUE
+  WithExclusive = FALSE
+  ExclLe = FALSE
   WithAborts = FALSE
 INVARIANTS Serializable OutcomeTruthful RetainsOverlapping
 PROPERTIES SnapshotStable AtomicCommit
